@@ -157,7 +157,10 @@ macro_rules! marg {
 }
 
 marg!(k_marg_2x3_a0, 10, [2, 3], [0]);
-marg!(k_marg_2x3_a1, 10, [2, 3], [1]);
+// k_marg_2x3_a1 ([2,3], LAST axis) was registered until the thorough trial: cbmc grows to 54 GB on it (OOM-killed).
+// The same happens for the last axis of [3,2], [2,2] and even [1,2] (> 15 GB each), so the real `Array::sum` is
+// exercised along first and middle axes only; the last axis is covered at the view level (V-view, V-axisiter, K-view)
+// and through the contract stub in the multi-axis harnesses.
 marg!(k_marg_2x3x2_a1, 16, [2, 3, 2], [1]);
 marg!(k_marg_2x3x2_a0, 16, [2, 3, 2], [0]);
 marg_stubbed!(k_marg_2x3x2_a20, 16, [2, 3, 2], [2, 0]);
